@@ -124,6 +124,17 @@ def run(ctx):
         # INVALID is 0: "INVALID == state -> continue" folds to the outcome (state, True)
         okd = any(a.s.endswith(']->coherency_state') and t is True for a, t, _ in g) and any(a.s.startswith('%s->device_copies[' % data) and a.s.endswith(']') and t is True for a, t, _ in g)
     rc.expect(okd, 'start:write-demotes', dem[0].loc if dem else f.where(), 'a WRITE access must turn every other existing, valid copy into SHARED', note='WRITE: other valid copies -> SHARED')
+    # the staleness decision (the switch) looks at the states of the other copies: it must be taken before this access changes any of them
+    if sw:
+        swb = None
+        for b in f.blocks:
+            if f.blocks[b].get('term') == sw[0] or (f.blocks[b].get('cond') is not None and f.expr(f.blocks[b]['cond']).s == 'copy->coherency_state' and f.term_kind(b) == 'switch'):
+                swb = b
+        others = [s_ for s_ in f.events() if s_.kind == 'store' and s_.lhs.s.endswith('->coherency_state') and 'device_copies[' in s_.lhs.s]
+        early = [s_ for s_ in others if swb is not None and f.reaches(s_.point, (swb, 0), acyclic=True)]
+        rc.expect(swb is not None and bool(others) and not early, 'start:decide-before-demote', (early or others or [None])[0].loc if (early or others) else f.where(),
+                  'start_transfer changes the coherency state of other copies before it has decided (switch on the target state) whether the target is stale: an OWNED newer copy demoted first is no longer seen and the stale target becomes the owner',
+                  note='staleness decided on the states as found, before any copy is demoted')
     vs = [s_ for s_ in f.stores('valid_copy')]
     rc.expect(all((s_.rhs.s == '%s->owner_device' % data) or (s_.rhs.s == 'i' and f.guarded_by(s_.point, lambda a, t: a.s.endswith(']->coherency_state') and t is True)) for s_ in vs) and len(vs) == 2,
               'start:source-valid', f.where(), 'the source is the owner device or, without owner, a copy that is not INVALID', note='source = owner, else a valid copy')
